@@ -97,8 +97,27 @@ def run_impl(case):
         try:
             defn = c18._mk_definition(case["defn"])
             dfs = defn.to_dfs()
-            return dict(kind="ok", tables={k: dict(columns=list(map(str, v.columns)), rows=len(v),
-                                                   first={c: str(v.iloc[0][c]) for c in v.columns} if len(v) else {}) for k, v in dfs.items()})
+            # every cell against the field of the definition it stands for (None stays None, tuples stay tuples, classes stay classes)
+            cells = []
+            for kind, table in dfs.items():
+                for i, d in enumerate(getattr(defn, kind)):
+                    fields = {"name": d} if isinstance(d, str) else {f: getattr(d, f) for f in type(d).model_fields}
+                    if i >= len(table):
+                        break
+                    for f, want in fields.items():
+                        if f not in table.columns:
+                            cells.append(f"{kind} row {i}: no column {f!r}")
+                            continue
+                        got = table.iloc[i][f]
+                        same = (got is None) if want is None else (got is not None and type(got) is type(want) and got == want)
+                        if not same:
+                            cells.append(f"{kind} row {i} field {f!r}: the table holds {got!r} ({type(got).__name__}), the definition {want!r}")
+                    for c in table.columns:
+                        if c not in fields:
+                            cells.append(f"{kind}: column {c!r} is no field of the definition")
+            return dict(kind="ok", cells=cells[:5],
+                        tables={k: dict(columns=list(map(str, v.columns)), rows=len(v),
+                                        first={c: str(v.iloc[0][c]) for c in v.columns} if len(v) else {}) for k, v in dfs.items()})
         except Exception as e:  # noqa
             return dict(kind="err", exc=type(e).__name__, msg=str(e)[:150])
     mfa = c02.build_system(case["sys"])
@@ -172,6 +191,8 @@ def oracle(case, obs):
             f0, t = d["flows"][0], obs["tables"]["flows"]["first"]
             if t.get("from_process_name") != f0["frm"] or t.get("to_process_name") != f0["to"] or t.get("dim_letters") != str(tuple(f0["dims"])):
                 return f"to_dfs flows row {t} does not hold the definition's field values {f0}"
+        if obs.get("cells"):
+            return "to_dfs: " + obs["cells"][0]
         return None
     if obs["kind"] == "err":
         return f"export raised {obs['exc']}: {obs['msg'][:100]}"
